@@ -332,6 +332,8 @@ fn cmd_check(prop: &str, tier: &str) -> i32 {
         let _ = std::fs::remove_dir_all(props::scratch_root());
     });
     let _ = std::fs::remove_dir_all(&outdir);
+    // workers that were killed or died could not remove their scratch directories
+    sweep_stale_scratch();
 
     // known findings are re-executed from their stored replay on every run
     let mut known_lines = Vec::new();
